@@ -86,8 +86,17 @@ P_C03(pre, e) ==
                 ~(e.reqs[i].r = "ERROR" /\ "before" \in DOMAIN e.reqs[i] /\ e.reqs[i].before # e.reqs[i].after),
                 <<e.reqs[i].kind, e.reqs[i].o, e.reqs[i].r>>)
 
+\* a bet is voided by the middleware only because its runner was removed (detected from the books by the
+\* recorder, not from the middleware's own list): an early LOSER / WINNER / HIDDEN is not a removal
+VoidOnlyOnRemoval(pre, e) ==
+    e.ev = "mw" =>
+       \A o \in DOMAIN pre.ord :
+          (Has(e.st.ord, o) /\ e.st.ord[o].void > pre.ord[o].void) =>
+             \E i \in DOMAIN e.a.newly_removed : e.a.newly_removed[i][1] = pre.ord[o].selk
+
 P_C04(pre, e) ==
     LET post == e.st IN
+    /\ Ck("C04", "VoidOnlyOnRemoval", VoidOnlyOnRemoval(pre, e), "")
     /\ \A o \in DOMAIN post.ord :
           /\ Ck("C04", "Conserved", Conserved(post.ord[o]), o)
           /\ (e.ev = "cb" => Ck("C04", "NonNeg", NonNeg(post.ord[o]), o))
@@ -96,9 +105,39 @@ P_C04(pre, e) ==
           /\ (o \in DOMAIN pre.ord =>
                 Ck("C04", "MatchedMonotone", MatchedMonotone(pre.ord[o], post.ord[o]), o))
 
+\* the two clocks the cool-downs are measured from, recomputed from what happened in the step:
+\* "last reset" restarts exactly when a PLACED trade of the runner completes, "last placed" exactly
+\* when a placement on the runner is accepted
+RcClocks(pre, e) ==
+    LET post == e.st IN
+    \A k \in DOMAIN post.rc :
+       LET was == IF Has(pre.rc, k) THEN pre.rc[k] ELSE EmptyRc
+           now == post.rc[k]
+           placedTrades == SeqToSet(was.trades) \cup SeqToSet(now.trades)
+           done == {t \in DOMAIN post.trd : /\ post.trd[t].rck = k /\ t \in placedTrades
+                                             /\ post.trd[t].status = "COMPLETE"
+                                             /\ (~Has(pre.trd, t) \/ pre.trd[t].status # "COMPLETE")}
+           neverPlacedDone == {t \in DOMAIN post.trd : /\ post.trd[t].rck = k /\ t \notin placedTrades
+                                             /\ post.trd[t].status = "COMPLETE"
+                                             /\ (~Has(pre.trd, t) \/ pre.trd[t].status # "COMPLETE")}
+           placedNow == \E i \in DOMAIN e.reqs : e.reqs[i].kind = "PLACE" /\ e.reqs[i].r = "ACCEPT" /\ e.reqs[i].rck = k
+       IN \* the cool-down after a completed trade starts when a placed trade completes ...
+          /\ Ck("C10", "ResetClockRestarts", done # {} => now.lastr = post.clock,
+                <<k, "was", was.lastr, "now", now.lastr, "clock", post.clock, "completed", done>>)
+          \* ... and is not pushed forward by trades that were never placed (refused orders): that locks the
+          \* strategy out of a runner whose orders have all completed.  (A late response for an order that
+          \* completed meanwhile re-stamps the clock once, by at most the latency: tolerated.)
+          /\ Ck("C10", "ResetClockExact",
+                ~(now.lastr # was.lastr /\ done = {} /\ neverPlacedDone # {}),
+                <<k, "was", was.lastr, "now", now.lastr, "clock", post.clock, "completed", done, "neverplaced", neverPlacedDone>>)
+          /\ Ck("C10", "PlacedClockExact",
+                IF placedNow THEN now.lastp = post.clock ELSE now.lastp = was.lastp,
+                <<k, was.lastp, now.lastp, post.clock>>)
+
 \* end of an update = the state in which the next update (or the end of the run) finds the system
 EndOfUpdate(e) == e.ev \in {"upd", "end"}
 P_C10(pre, e) ==
+    /\ (e.ev \in {"cb", "exec", "mw", "sweep", "close", "pend"} => RcClocks(pre, e))
     /\ (EndOfUpdate(e) =>
           /\ Ck("C10", "LiveTradesExact", LiveTradesWrong(pre) = {}, LiveTradesWrong(pre))
           /\ Ck("C10", "TradeCompleteIff", TradeStatusWrong(pre) = {}, TradeStatusWrong(pre))
@@ -352,6 +391,7 @@ P_C06(pre, e) ==
 (* C09 *)
 P_C09(pre, e) ==
     LET post == e.st IN
+    /\ Ck("C09", "VoidOnlyOnRemoval", VoidOnlyOnRemoval(pre, e), "")
     /\ (e.ev = "mw" =>
          /\ \A i \in DOMAIN e.a.newly_removed :
               LET sk == e.a.newly_removed[i][1]
@@ -637,6 +677,12 @@ P_C18(pre, e) ==
             /\ Ck("C18", "ResetOnFirstRequestOfNewHour",
                   k.cur2 = r[1].cur /\ k.curf2 = r[1].curf /\ k.nexthour2 = r[1].nexthour, <<k, r[1]>>)
             /\ Ck("C18", "UnlimitedNeverBlocked", k.limit < 0 => k.accepted, <<k>>)
+    \* every accepted non-forced request - of whichever kind - went through the client's control and was let through by it
+    /\ (e.ev = "cb" => \A j \in DOMAIN e.reqs :
+          (e.reqs[j].r = "ACCEPT" /\ ~e.reqs[j].force) =>
+             Ck("C18", "AcceptedWasChecked",
+                \E i \in DOMAIN e.txcalls : e.txcalls[i].o = e.reqs[j].o /\ e.txcalls[i].kind = e.reqs[j].kind /\ e.txcalls[i].accepted,
+                <<e.reqs[j].kind, e.reqs[j].o>>))
     \* a request refused by this control is refused (the request log agrees)
     /\ (e.ev = "cb" => \A i \in DOMAIN e.txcalls :
           ~e.txcalls[i].accepted =>
